@@ -84,11 +84,10 @@ Proof.
     eapply (mrs_update d0 d d' (reg_id r) r); [exact H|exact Hr|exact E|reflexivity|reflexivity|reflexivity]. }
   pose proof (call_cases cfg lk now d caller req opts proc args kw oracle) as C.
   inversion C; subst; auto;
-    try (eapply meta_regs_same_ext; [apply nps_frame|exact H]; fail).
-  - eapply meta_regs_same_ext; [apply chs_regs|exact H].
-  - eapply Hn; [eassumption|reflexivity].
-  - eapply Hn; [eassumption|reflexivity].
-  - eapply Hn; [eassumption|apply cfs_regs].
+    try (eapply meta_regs_same_ext; [apply nps_frame|exact H]; fail);
+    try (eapply meta_regs_same_ext; [apply chs_regs|exact H]; fail);
+    try (eapply Hn; [eassumption|reflexivity]; fail);
+    try (eapply Hn; [eassumption|apply cfs_regs]; fail).
 Qed.
 
 Lemma call_invoked_wf : forall r s req opts proc args kw oracle k d callee o,
@@ -158,6 +157,9 @@ Proof.
   - (* PUBLISH *)
     pose proof (publish_realm_wf r s req opts topic args kw W) as P.
     destruct (publish _ _ _ _ _ _ _ _ _ _ _) as [[b pg] o]. cbn [fst]. destruct P as [P1 P2].
+    destruct (publish_aborts (r_cfg r) s opts topic).
+    { destruct (leave_wf r (s_id s) k W I) as (W1 & J1 & _).
+      destruct (leave r (s_id s)). apply Up. exact (conj W1 J1). }
     apply Up. split; [exact P1|]. apply ids_below_set_broker; [exact I|]. lia.
   - (* SUBSCRIBE *)
     pose proof (subscribe_sess_keys (r_cfg r) (r_broker r) (r_pubgen r) (s_id s) req opts topic) as K.
@@ -239,8 +241,11 @@ Proof.
     pose proof (dealer_step_wf r _ k W I Wd E1 E2 E3 S) as Y.
     destruct (cancel _ _ _ _ _) as [d o]. apply Up. exact Y.
   - (* YIELD *)
-    pose proof (sync_yield_realm_wf r (s_id s) req opts args kw k W I) as Y.
-    destruct (sync_yield _ _ _ _ _ _) as [d o]. apply Up. exact Y.
+    pose proof (sync_yield_realm_wf r (lookup r) (s_id s) req opts args kw k W I) as Y.
+    destruct (sync_yield _ _ _ _ _ _ _) as [d o]. cbn [fst] in Y.
+    destruct (yield_aborts _ _ _ _ _); [|apply Up; exact Y].
+    destruct Y as [Y1 Y2]. destruct (leave_wf (r_set_dealer r d) (s_id s) k Y1 Y2) as (W1 & J1 & _).
+    destruct (leave (r_set_dealer r d) (s_id s)). apply Up. exact (conj W1 J1).
   - (* ERROR *)
     destruct (negb (ty =? c_INVOCATION)).
     + destruct (leave_wf r (s_id s) k W I) as (W1 & J1 & _).
